@@ -18,7 +18,7 @@ RULE = (
 )
 ASSUMPTIONS = ["per-rule fresh conversion (new backend class instance, new pipeline from the same dict, freshly loaded rule) is the reference",
                "errors are compared by type and message"]
-MENU = ["ok1", "ok2", "ok_lin", "off", "F_pipe", "F_item", "F_ph", "F_type", "F_cond", "F_neg", "ok_cased_sw"]
+MENU = ["ok1", "ok2", "ok_lin", "off", "F_pipe", "F_item", "F_ph", "F_type", "F_cond", "F_neg", "ok_cased_sw", "F_cond2", "F_ph2"]
 BOUNDS = {"quick": dict(n=4), "thorough": dict(n=5)}
 
 
@@ -32,7 +32,11 @@ def rule_dict(kind, i):
         "ok1": {"sel": {"f1": f"a{i}"}, "condition": "sel"},
         "ok2": {"sel": {"f1": f"a{i}"}, "sel2": {"f2": f"b{i}"}, "condition": ["sel", "sel2 and not sel"]},
         "off": {"sel": {"f1": f"off{i}"}, "condition": "sel"},
-        "ok_lin": {"sel": {"f1": f"lin{i}", "f2": "x"}, "condition": "sel"},
+        # same condition text as F_neg (an operator nested in another one), other detection content
+        "ok_lin": {"sel": {"f1": f"lin{i}", "f2": "x"}, "flt": {"f3": f"n{i}"}, "condition": "sel and not flt"},
+        # several conditions, a later one fails after an earlier one was converted
+        "F_cond2": {"sel": {"f1": f"c{i}"}, "condition": ["sel", "sel and missing"]},
+        "F_ph2": {"sel": {"f1": f"p{i}"}, "ph": {"f2|expand": "%nope%"}, "condition": ["sel", "sel or ph", "sel"]},
         "F_pipe": {"sel": {"f1": "x"}, "condition": "sel"},
         "F_item": {"sel": {"ffail": "x", "f1": "y"}, "condition": "sel"},
         "F_ph": {"sel": {"f1|expand": "%nope%"}, "condition": "sel"},
@@ -115,8 +119,19 @@ _SINGLE = {}
 def single_cached(kind, i, kname, pname):
     key = (kind, i, kname, pname)
     if key not in _SINGLE:
+        _fresh_process_state()  # "converting that rule alone": nothing else was parsed or converted before
         _SINGLE[key] = single(kind, i, kname, pname)
     return _SINGLE[key]
+
+
+def _fresh_process_state():
+    """module-level caches of the library are emptied: every stand-alone conversion (the reference) starts like a new process;
+    the histories run in whatever state the worker process is in (a leak through these caches shows as a difference)"""
+    from sigma.conditions import _parse_condition_string
+    from sigma.modifiers import SigmaModifier
+
+    _parse_condition_string.cache_clear()
+    SigmaModifier._type_hint_cache.clear()
 
 
 def run_history(hist, kname, pname, collect):
@@ -163,7 +178,7 @@ def expected(hist, kname, pname, collect):
 
 def stage_of(kind):
     return {"F_pipe": "pipeline-rule-failure", "F_item": "pipeline-item-failure", "F_ph": "unresolved-placeholder", "F_type": "unsupported-value-type",
-            "F_cond": "missing-detection", "F_neg": "placeholder-under-not"}.get(kind, kind)
+            "F_cond": "missing-detection", "F_neg": "placeholder-under-not", "F_cond2": "missing-detection-in-later-condition", "F_ph2": "unresolved-placeholder-in-later-condition"}.get(kind, kind)
 
 
 def judge(res, st, hist, kname, pname, collect):
